@@ -942,6 +942,10 @@ class Slice:
     def has_field(self, name):
         return any(name in fs for _, fs in self.fieldreads)
 
+    def reads_field(self, name):
+        """the like-named field of self, directly or through its accessor (`self.headers` / `self.headers()`)"""
+        return self.has_field(name) or self.has_call(r"CanonicalRequest::%s$|SigV4Authenticator::%s$" % (name, name))
+
     def field_reads_of(self, local):
         return [fs for l, fs in self.fieldreads if l == local]
 
@@ -1000,6 +1004,16 @@ class Facts:
         if key in self._cache:
             return self._cache[key]
         c = self.bodies.get(path, [])
+        if not c:
+            # lifetime parameters spelled differently (`<'a, 'b>` vs `<'_, '_>`) name the same item
+            norm = lambda p_: re.sub(r"'[A-Za-z_][A-Za-z0-9_]*", "'_", p_)
+            if getattr(self, "_ltnorm", None) is None:
+                self._ltnorm = {}
+                for p_ in self.bodies:
+                    self._ltnorm.setdefault(norm(p_), p_)
+            alt = self._ltnorm.get(norm(path))
+            if alt:
+                c = self.bodies.get(alt, [])
         if kind:
             c = [b for b in c if b["kind"].startswith(kind)]
         if len(c) != 1:
